@@ -126,3 +126,40 @@ def replay_with(oracle, payload):
         return {'fails': False, 'note': 'no concrete input in replay file: ' + str(payload.get('no_longer_checks'))}
     g = oracle(''.join(map(chr, f['input'])))
     return {'fails': bool(g), 'observed': g}
+
+
+# ---- long tokens / long runs (gens.long_cases): direct checks on the implementation -----------------------------------
+def long_lex_failure(kind, text, span):
+    """C01/C14 on one long input: values concatenate to the input, no empty token, Error tokens have length 1, and the
+    long opaque region (span) is exactly ONE token."""
+    from sqlparse import lexer, tokens as T
+    inp_note = {'long_input': {'kind': kind, 'length': len(text)}}
+    try:
+        toks = list(lexer.tokenize(text))
+    except Exception as e:  # noqa
+        return dict(inp_note, input=[ord(c) for c in text[:200]], text_recipe=kind,
+                    observed='tokenize raised %s: %s' % (type(e).__name__, str(e)[:120]))
+    if ''.join(v for _, v in toks) != text:
+        return dict(inp_note, input=[ord(c) for c in text[:200]], text_recipe=kind,
+                    observed='token values do not concatenate to the input (long input: %s, %d characters)' % (kind, len(text)))
+    pos = 0
+    for tt, v in toks:
+        if v == '' or (tt is T.Error and len(v) != 1):
+            return dict(inp_note, input=[ord(c) for c in text[:200]], text_recipe=kind, observed='empty token / long Error token')
+        if span and pos <= span[0] < pos + len(v) and (pos, pos + len(v)) != tuple(span):
+            return dict(inp_note, input=[ord(c) for c in text[:200]], text_recipe=kind,
+                        observed='the %d-character region (%s) is not ONE token: the token at its start covers [%d, %d)'
+                                 % (span[1] - span[0], kind, pos, pos + len(v)))
+        pos += len(v)
+    return None
+
+
+def long_case_text(f):
+    """Rebuild the text of a long-input failure from its recipe (replay)."""
+    import gens
+    li = f.get('long_input') or {}
+    for quick in (True, False):
+        for kind, text, span in gens.long_cases(quick):
+            if kind == li.get('kind') and len(text) == li.get('length'):
+                return kind, text, span
+    return None
